@@ -836,8 +836,21 @@ Definition ref_exp_nice (a : Z) : Z :=
   let r7 := rstep rem 1073741824 242 r6 in
   if a =? 0 then 2147483647 else r7.
 
+Lemma barrel_5 rem e k m r :
+  (5 >? e) = true -> cast32 (Z.shiftl 1 (26 + e)) = k -> exp_barrel_shifter 5 rem e m r = rstep rem k m r.
+Proof.
+  intros H1 H2. unfold exp_barrel_shifter, rstep. rewrite H1. cbv zeta. change (31 - 5) with 26. rewrite H2. reflexivity.
+Qed.
+
 Lemma ref_exp_unfold a : FpMath.exp_on_negative_values a = ref_exp_nice a.
-Proof. reflexivity. Qed.
+Proof.
+  unfold FpMath.exp_on_negative_values, exp_on_negative_values_ib, ref_exp_nice.
+  rewrite (barrel_5 _ (-2) 16777216), (barrel_5 _ (-1) 33554432), (barrel_5 _ 0 67108864),
+    (barrel_5 _ 1 134217728), (barrel_5 _ 2 268435456), (barrel_5 _ 3 536870912), (barrel_5 _ 4 1073741824)
+    by (vm_compute; reflexivity).
+  change (5 >? 5) with false. change (Z.shiftl 1 (31 - 5 - 2)) with 16777216.
+  change (sub32 16777216 1) with 16777215. reflexivity.
+Qed.
 
 Definition exp_neg_c (a : Z) : Z :=
   let am := a mod 16777216 - 16777216 in
@@ -1319,3 +1332,12 @@ Example lut_hardswish_example :
   HardSwishRef (-128) (-128) 27962 2 16384 (-6) (-128) 127 0 = 0 /\
   vela_hardswish_entry (-128) (-128) 1073741824 37 1832519339 29 (-128) 127 (-100) = Some (-109).
 Proof. vm_compute. repeat split. Qed.
+
+(* ------------------------------------------------------------------------------------------
+   REFUTED for the NumPy scalar type a real call site passes: shift_left16 on np.int16 does not saturate.
+   Witness replayed on the real function by tools/checks/c19.py (fp_math.shift_left16(np.int16(32640), 1) = -256). *)
+Lemma shift_left16_np_int16_refuted_lemma :
+  exists a off, in_int 16 a = true /\ 0 <= off <= 30 /\
+    np_shift_left16_int16 a off = Some (-256) /\ SaturatingLeftShift16 a off = 32767 /\
+    G.shift_left16 a off = Some 32767.
+Proof. exists 32640, 1. vm_compute. repeat split; discriminate. Qed.
